@@ -58,6 +58,7 @@ fail_arr:
 int str_table_copy(str_table_t *dst, const str_table_t *src)
 {
 	str_bucket_t *bucket, **array;
+	size_t done = 0, i;
 	int ret;
 
 	ret = array_init_copy(&dst->bucket_ptrs, &src->bucket_ptrs);
@@ -75,6 +76,17 @@ int str_table_copy(str_table_t *dst, const str_table_t *src)
 	hash_table_foreach(dst->ht, ent) {
 		bucket = alloc_flex(sizeof(*bucket), 1, strlen(ent->key) + 1);
 		if (bucket == NULL) {
+			/* the entries we did not get to still reference
+			   the buckets of the source table, drop them */
+			i = 0;
+
+			hash_table_foreach(dst->ht, it) {
+				if (i++ >= done) {
+					it->data = NULL;
+					it->key = NULL;
+				}
+			}
+
 			str_table_cleanup(dst);
 			return SQFS_ERROR_ALLOC;
 		}
@@ -86,8 +98,10 @@ int str_table_copy(str_table_t *dst, const str_table_t *src)
 		ent->key = bucket->string;
 
 		array[bucket->index] = bucket;
+		++done;
 	}
 
+	dst->next_index = src->next_index;
 	return 0;
 }
 
